@@ -37,6 +37,7 @@ type Node struct {
 	Keys      []string `json:"keys,omitempty"`
 	Shorthand bool     `json:"shorthand,omitempty"` // case written without a 'case' statement
 	MapList   bool     `json:"maplist,omitempty"`   // struct stores: back this list by a Go map
+	ValueList bool     `json:"valuelist,omitempty"` // struct-backed Reflect: a slice of struct values ([]T), not pointers
 	Module    string   `json:"module,omitempty"`    // defining module when not the main one ("g")
 	Bits      []string `json:"bits,omitempty"`
 	Rich      bool     `json:"rich,omitempty"` // module: emit the companion module g (identities, groupings)
@@ -358,6 +359,7 @@ type Caps struct {
 	ListsInLists bool
 	Int64        bool
 	NoEnums      bool // struct-backed Reflect cannot read an unset string-typed enum field
+	ValueLists   bool // some slice lists hold struct values instead of pointers
 }
 
 func FullCaps() Caps {
@@ -446,6 +448,8 @@ func (g *gen) list(depth int) *Node {
 	}
 	if g.caps.MapLists && nk == 1 && g.r.Chance(1, 2) {
 		l.MapList = true
+	} else if g.caps.ValueLists && g.r.Chance(1, 2) {
+		l.ValueList = true
 	}
 	g.fill(l, depth, true)
 	return l
